@@ -263,6 +263,91 @@ async def run_sequence(seq, shape, out, variant):
         out.distinct(("seq", shape, tuple(seq)))
 
 
+async def run_race(shape, prefix, second, yields, out):
+    """Two calls in flight on one peer: setLocalDescription(offer) is started and, while it is suspended (it waits for ICE
+    gathering), a second call is made.  JSEP's automaton is sequential, so the outcome pair and the final state must be those
+    of one of the two orders in which the calls could have taken effect (linearizability against the 4-state model)."""
+    import copy
+
+    from aiortc import RTCSessionDescription
+    from vt.rigs.pc import Peer
+
+    ref = await cached(shape)
+    x = Peer("A", side(shape))
+    model = PeerModel()
+    desc = {"kind": "race", "shape": shape, "prefix": prefix, "first": "setLocalOffer", "second": second, "yields_before_second": yields}
+    pc = x.pc
+    try:
+        if prefix == "have-local-offer":
+            await pc.setLocalDescription(await pc.createOffer())
+            model.state = "have-local-offer"
+        elif prefix == "have-remote-offer":
+            await pc.setRemoteDescription(RTCSessionDescription(sdp=ref["offer"], type="offer"))
+            model.state = "have-remote-offer"
+        if pc.signalingState != model.state:
+            out.fail("wrong-state-after:prefix", f"prefix {prefix}: signalingState={pc.signalingState}", desc)
+            return
+        try:
+            offer = await pc.createOffer()
+        except Exception:
+            offer = RTCSessionDescription(sdp=ref["offer"], type="offer")
+        d2 = RTCSessionDescription(sdp=ref["offer"], type="offer") if second == "setRemoteOffer" else RTCSessionDescription(sdp=ref["answer"], type="answer")
+        res = {}
+
+        async def first():
+            try:
+                await pc.setLocalDescription(offer)
+                res[0] = "ok"
+            except Exception as exc:
+                res[0] = type(exc).__name__
+
+        t = asyncio.ensure_future(first())
+        for _ in range(yields):
+            await asyncio.sleep(0)
+        overlapped = not t.done()
+        try:
+            await pc.setRemoteDescription(d2)
+            res[1] = "ok"
+        except Exception as exc:
+            res[1] = type(exc).__name__
+        await asyncio.wait_for(t, 30)
+        out.counters["calls_checked"] += 2
+        out.counters["races_checked"] += 1
+        out.counters["races_overlapping"] += 1 if overlapped else 0
+        final = pc.signalingState
+        admitted = []
+        for order in ((0, 1), (1, 0)):
+            m = copy.copy(model)
+            outcome = {}
+            for k in order:
+                sym = "setLocalOffer" if k == 0 else second
+                adm, nxt = expected(m, sym)
+                if "ok" in adm:
+                    outcome[k] = {"ok"}
+                    m.state = nxt
+                else:
+                    outcome[k] = adm
+            admitted.append((outcome, m.state))
+        if not any(res[0] in o[0] and res[1] in o[1] and final == st for o, st in admitted):
+            key = f"race-not-linearizable:{second}:{model.state}"
+            if yields == 0 and res[0] == "ok" and res[1] == "ok":
+                # known mechanism: setRemoteDescription ran first, validated the state and was suspended before committing
+                key = "overlap-remote-description-not-atomic"
+            elif yields > 0 and overlapped and second == "setRemoteAnswer" and res[1] == "AttributeError" and model.state == "stable":
+                # known mechanism: state already have-local-offer, the pending local description is stored only after gathering
+                key = "overlap-answer-before-local-offer-stored"
+            out.fail(key, f"from {model.state}: setLocalDescription(offer) -> {res[0]}, {second} made while it was "
+                     f"{'suspended' if overlapped else 'already finished'} -> {res[1]}, final state {final}; the automaton admits only "
+                     f"{[(sorted(o[0]), sorted(o[1]), st) for o, st in admitted]}", desc | {"outcomes": [res[0], res[1]], "final": final})
+        if overlapped:
+            out.distinct(("race", shape, prefix, second, yields))
+    finally:
+        try:
+            await asyncio.wait_for(pc.close(), 10)
+        except Exception:
+            pass
+
+
 def enum_sequences(maxlen):
     for n in range(1, maxlen + 1):
         for seq in itertools.product(ALPHABET, repeat=n):
@@ -303,6 +388,9 @@ def run_case(index, rng, tier):
                 await run_sequence(seq, shape, out, rng.randrange(1000))
                 if out.want_sample():
                     out.sample({"kind": "random", "shape": shape, "sequence": [f"{p}.{s}" for p, s in seq]})
+            for _ in range(6):
+                await run_race(rng.choice(list(SHAPES)), rng.choice(["stable", "stable", "have-local-offer", "have-remote-offer"]),
+                               rng.choice(["setRemoteOffer", "setRemoteAnswer"]), rng.choice([0, 1, 1, 2, 3, 5, 10, 30]), out)
         run_async(go(), timeout=3000)
         out.counters["kind_random"] += 1
     res = out.result()
